@@ -133,6 +133,33 @@ func runC10(w *World, tier string, mode string) (bool, interface{}) {
 				return
 			}
 			x.Signature = ed25519.Sign(w.Nodes[by].Priv, x.Bytes()) // correctly signed by S itself
+			if w.Tape.Bool(1, 4, "copiedSignature") {
+				// ... or S has no key of P either, but every node has already verified
+				// P's earlier messages: S posts the payload in P's name (sender field and
+				// participant id are P's) under a signature copied from one of them
+				pname := ""
+				for _, nd := range w.Nodes[:n] {
+					if dd := nd.Dump(m.DkgRoundID); dd != nil {
+						for name, id := range dd.Payload.IDs {
+							if id == p {
+								pname = name
+							}
+						}
+						break
+					}
+				}
+				var earlier []storage.Message
+				for _, e := range history {
+					if e.SenderAddr == pname && e.DkgRoundID == m.DkgRoundID && len(e.Signature) > 0 {
+						earlier = append(earlier, e)
+					}
+				}
+				if pname != "" && len(earlier) > 0 {
+					x.SenderAddr = pname
+					x.Signature = append([]byte(nil), earlier[w.Tape.Choose(len(earlier), "copiedFrom")].Signature...)
+					w.Stats.Fault("impersonation-under-a-copied-signature")
+				}
+			}
 			if w.Tape.Bool(1, 2, "alsoSenderField") {
 				// S also writes P's name into the (unauthenticated) sender field; the signature is still S's
 				for _, nd := range w.Nodes[:n] {
